@@ -71,6 +71,7 @@ type ReplayFile struct {
 	History    []string    `json:"history,omitempty"`
 	Stats      simrt.Stats `json:"stats"`
 	Known      string      `json:"known_finding,omitempty"`
+	Race       bool        `json:"race,omitempty"` // found by (and replayable only with) the -race build
 	ShrinkRuns int         `json:"shrink_runs"`
 }
 
@@ -176,6 +177,11 @@ func TestWorker(t *testing.T) {
 		if r := recover(); r != nil {
 			out.Infra = fmt.Sprintf("harness panic: %v\n%s", r, debug.Stack())
 		}
+		if cr := curRun; cr != nil && simrt.RaceBuild && out.Infra == "" && out.Violation == nil {
+			// the test was ended by the testing package because the race detector
+			// reported something during this run
+			raceVerdict(out, cr)
+		}
 		if outPath != "" {
 			b, _ := json.Marshal(out)
 			os.WriteFile(outPath, b, 0o644)
@@ -211,7 +217,10 @@ func TestWorker(t *testing.T) {
 		g := &Gen{R: simrt.NewRand(seed)}
 		prog := prop.Gen(g, tier)
 		prog.Prop = propID
-		res := RunOne(t, prop, prog, simrt.NewChooser(seed^0x5bd1e995), hashMode)
+		ch := simrt.NewChooser(seed ^ 0x5bd1e995)
+		curRun = &runCtx{prop: propID, prog: prog, ch: ch, idx: idx, seed: seed, base: base, tier: tier}
+		res := RunOne(t, prop, prog, ch, hashMode)
+		curRun = nil
 		if res.Infra != "" {
 			out.Infra = fmt.Sprintf("run %d (seed %d): %s", idx, seed, res.Infra)
 			return
@@ -279,6 +288,55 @@ func TestWorker(t *testing.T) {
 	sort.Strings(out.Distinct)
 }
 
+type runCtx struct {
+	prop string
+	prog *Program
+	ch   *simrt.Chooser
+	idx  int
+	seed uint64
+	base uint64
+	tier string
+}
+
+var curRun *runCtx
+
+// raceVerdict turns the race detector's report for the run that was in
+// progress into a violation (a frame of the code under test is involved) or an
+// infrastructure error (harness or shim code only).
+func raceVerdict(out *WorkerOut, cr *runCtx) {
+	text := ""
+	if prefix := os.Getenv("VERIF_RACE_LOG"); prefix != "" {
+		if data, err := os.ReadFile(fmt.Sprintf("%s.%d", prefix, os.Getpid())); err == nil {
+			text = string(data)
+		}
+	}
+	if !strings.Contains(text, "DATA RACE") {
+		out.Infra = fmt.Sprintf("run %d ended abnormally under the race build without a race report", cr.idx)
+		return
+	}
+	// keep the last report
+	if i := strings.LastIndex(text, "WARNING: DATA RACE"); i >= 0 {
+		text = text[i:]
+	}
+	inTally := false
+	for _, line := range strings.Split(text, "\n") {
+		l := strings.TrimSpace(line)
+		if strings.HasPrefix(l, "github.com/uber-go/tally/v4") && strings.Contains(l, "(") {
+			inTally = true
+		}
+	}
+	if len(text) > 3500 {
+		text = text[:3500]
+	}
+	if !inTally {
+		out.Infra = "race report without a frame of the code under test (harness / shim bookkeeping):\n" + text
+		return
+	}
+	out.Violation = &ReplayFile{Property: cr.prop, BaseSeed: cr.base, RunIndex: cr.idx, RunSeed: cr.seed, Tier: cr.tier,
+		Class: "data-race", Violation: []string{"[data-race] the race detector reported a data race involving tally code during this (serialised, replayable) run:\n" + text},
+		Program: cr.prog, Tape: append([]uint32(nil), cr.ch.Tape...), Race: true, OrigOps: cr.prog.NumOps(), OrigTape: len(cr.ch.Tape)}
+}
+
 func replayMain(t *testing.T, prop *Property, path string, out *WorkerOut) {
 	data, err := os.ReadFile(path)
 	if err != nil {
@@ -290,7 +348,10 @@ func replayMain(t *testing.T, prop *Property, path string, out *WorkerOut) {
 		out.Infra = "bad replay file: " + err.Error()
 		return
 	}
-	res := RunOne(t, prop, rf.Program, simrt.NewReplay(rf.Tape), true)
+	rch := simrt.NewReplay(rf.Tape)
+	curRun = &runCtx{prop: rf.Property, prog: rf.Program, ch: rch, idx: rf.RunIndex, seed: rf.RunSeed, base: rf.BaseSeed, tier: rf.Tier}
+	res := RunOne(t, prop, rf.Program, rch, true)
+	curRun = nil
 	if res.Infra != "" {
 		out.Infra = res.Infra
 		return
